@@ -23,6 +23,17 @@ def sh(cmd, **kw):
 
 
 def main():
+    if HOME == "/verif" and not os.environ.get("VERIF_EVAL_IN_PLACE"):
+        # evaluate in a COPY of /verif: the run regenerates tables and evidence in place, and development in /verif goes on
+        # meanwhile (a table left over from an evaluation once got committed and broke the setup build of a fresh copy)
+        copy = "/tmp/verif-eval"
+        sh(f"rsync -a --delete --exclude seeded {HOME}/ {copy}/")
+        r = subprocess.run([sys.executable, os.path.join(copy, "py", "eval_seeded.py")] + sys.argv[1:])
+        dst = os.path.join(HOME, "seeded", sys.argv[3])
+        if os.path.isdir(os.path.join(copy, "seeded", sys.argv[3])):
+            shutil.rmtree(dst, ignore_errors=True)
+            shutil.copytree(os.path.join(copy, "seeded", sys.argv[3]), dst)
+        return r.returncode
     prop, src, label = sys.argv[1], sys.argv[2], sys.argv[3]
     extra = sys.argv[4:]            # further property ids to run as well
     wt = f"/tmp/evalwt-{label}"
